@@ -5,14 +5,25 @@ TRUSTED = []
 ASSUMPTIONS = []
 EXPLANATION = ""
 
-UNW = 14
+K2 = {"KQ": 2, "KD": 2, "KS": 2, "KR": 2, "NW": 2}
+K3 = {"KQ": 3, "KD": 3, "KS": 3, "KR": 3, "NW": 3}
+L2 = "bounded(list nodes <= 2)"
+L3 = "bounded(list nodes <= 3)"
+
+def _k(extra2=None, extra3=None, t3="quick"):
+    return [dict(id="k2", defines=dict(K2, **(extra2 or {})), unwind=8, label=L2, tier="quick"),
+            dict(id="k3", defines=dict(K3, **(extra3 or {})), unwind=10, label=L3, tier=t3)]
 
 HARNESSES = [
-    dict(name="store_completed", file="store_completed.c",
-         label="bounded(list nodes <= 2)", unwind=UNW, timeout=600,
-         cases=[dict(id="k2", defines={"KQ": 2, "KD": 2}, tier="quick"),
-                dict(id="k3", defines={"KQ": 3, "KD": 3, "KS": 3, "KR": 3, "NW": 3},
-                     unwind=18, label="bounded(list nodes <= 3)", tier="quick"),
-                dict(id="k4", defines={"KQ": 2, "KD": 4, "KS": 1, "KR": 1, "NW": 3},
-                     unwind=18, label="bounded(list nodes <= 4)", tier="thorough")]),
+    dict(name="bp_sync", file="bp_sync.c", label="bounded(blocks in pool <= 2)", unwind=5, timeout=600,
+         fp={"dequeue": "stub_dequeue", "get_status": "stub_get_status", "submit": "stub_submit",
+             "write_data_block": "stub_write_data_block"},
+         cases=[dict(id="nb2", defines={"NB": 2}, tier="quick")]),
+    dict(name="store_completed", file="store_completed.c", label=L2, timeout=600, cases=_k()),
+    dict(name="get_next", file="get_next.c", label=L2, timeout=600, cases=_k()),
+    dict(name="worker_proc", file="worker_proc.c", label=L2, timeout=900,
+         fp={"fun": "stub_fun"},
+         cases=[dict(id="k2w0", defines=dict(K2, WIDX=0, MAXWAIT=0), unwind=8, label=L2, tier="quick"),
+                dict(id="k2w1", defines=dict(K2, WIDX=1), unwind=8, label=L2, tier="quick"),
+                dict(id="k3w2", defines=dict(K3, WIDX=2), unwind=10, label=L3, tier="thorough")]),
 ]
